@@ -142,6 +142,8 @@ class Expander:
                 return target
             self.n_twins += 1
             c = self._copy(target)
+            if "o" in spec:
+                c.origin = spec["o"]  # content-equal twin carrying another origin
             if "nc" in spec and any(f.name == "nc" for f in M.prop_fields(c.cls)):
                 c.props["nc"] = spec["nc"]  # twin that differs in a non-comparable property only
             return c
@@ -467,6 +469,9 @@ class TreeGen:
             opts.append(st.integers(0, 30).map(lambda n: {"$share": n}))
         if self.twins:
             opts.append(st.integers(0, 30).map(lambda n: {"$twin": n}))
+            if self.origin_rate > 0:
+                opts.append(st.tuples(st.integers(0, 30), og.st_simple_origin(self.origin_index)).map(
+                    lambda t: {"$twin": t[0], "o": t[1]}))
             if self.detach_rate > 0:
                 opts.append(st.tuples(st.integers(0, 30), st.sampled_from(["", "t1", "t2"])).map(
                     lambda t: {"$twin": t[0], "nc": t[1]}))
